@@ -31,6 +31,7 @@ import (
 	"github.com/sirupsen/logrus"
 	"google.golang.org/protobuf/proto"
 
+	"github.com/atlassian/gostatsd"
 	"github.com/atlassian/gostatsd/pb"
 	"github.com/atlassian/gostatsd/pkg/web"
 
@@ -226,6 +227,11 @@ func validMetricBody(r *hx.Rng) []byte {
 	}
 	if r.Chance(1, 3) {
 		msg.Sets = map[string]*pb.SetTagV2{"s": {TagMap: map[string]*pb.RawSetV2{"": {Values: []string{"a", "b"}}}}}
+	}
+	if r.Chance(1, 4) {
+		// degenerate but valid sub-messages: a set without members, a timer without values, empty tag maps
+		msg.Sets = map[string]*pb.SetTagV2{"s0": {TagMap: map[string]*pb.RawSetV2{"": {}, "t": {Values: []string{}, Tags: []string{"t"}}}}, "s1": {}}
+		msg.Timers = map[string]*pb.TimerTagV2{"t0": {TagMap: map[string]*pb.RawTimerV2{"": {}}}, "t1": {TagMap: map[string]*pb.RawTimerV2{}}}
 	}
 	b, err := proto.Marshal(msg)
 	if err != nil {
@@ -485,6 +491,12 @@ func runD(toks []string) string {
 	if res.Hang {
 		return "HANG"
 	}
+	if len(dg) <= 65000 {
+		if p := viaReceiver(ns, toks[1] == "1", dg, int(res.EventsReceived)); p != "" {
+			fmt.Fprintf(os.Stderr, "through the receiver, %s: %s\n", hx.B(dg), p)
+			return "PANIC receiver-path " + p
+		}
+	}
 	return fmt.Sprintf("OK metrics=%d events=%d bad=%d", res.MetricsReceived, res.EventsReceived, res.BadLines)
 }
 
@@ -548,6 +560,21 @@ func runH(toks []string) (out string) {
 	rec := httptest.NewRecorder()
 	hs.Router.ServeHTTP(rec, req)
 	dispatched := len(capt.Maps) + len(capt.Events)
+	// what the endpoint hands to the pipeline is merged with later data by goroutines nothing recovers (consolidator,
+	// aggregator workers): every series of a dispatched map must take one more datapoint without panicking
+	for _, mm := range capt.Maps {
+		ts := gostatsd.Nanotime(1)
+		mm.Counters.Each(func(n, tk string, c gostatsd.Counter) {
+			mm.MergeCounter(n, tk, gostatsd.Counter{Value: 1, Timestamp: ts})
+		})
+		mm.Gauges.Each(func(n, tk string, g gostatsd.Gauge) { mm.MergeGauge(n, tk, gostatsd.Gauge{Value: 1, Timestamp: ts}) })
+		mm.Timers.Each(func(n, tk string, t gostatsd.Timer) {
+			mm.MergeTimer(n, tk, gostatsd.Timer{Values: []float64{1}, SampledCount: 1, Timestamp: ts})
+		})
+		mm.Sets.Each(func(n, tk string, st gostatsd.Set) {
+			mm.MergeSet(n, tk, gostatsd.Set{Values: map[string]struct{}{"probe": {}}, Timestamp: ts})
+		})
+	}
 	return fmt.Sprintf("S %d dispatched=%d", rec.Code, dispatched)
 }
 
